@@ -259,7 +259,7 @@ pub fn run(prop: &str, tier: &str, replay: Option<&str>) -> i32 {
                 }
             }
         }
-        let sec = Section::new("sweep/dn-type x string-kind x value-shape", "8 attribute types x every string kind x 21 value shapes, alone and after another attribute: generated, imported, re-issued, imported again");
+        let sec = Section::new("sweep/dn-type x string-kind x value-shape", "8 attribute types x every string kind x 27 value shapes, alone and after another attribute: generated, imported, re-issued, imported again");
         run::sweep_cases(&sec, &cases, &|c| format!("dn={:?}", c.0), &|c| {
             let mut st = CertState::default();
             st.dn = c.clone();
